@@ -103,6 +103,8 @@ def _snap(x, depth=0):
     return None
 
 
+REPEAT_TWIN = False  # set per clause by run_one (Clause.repeat_twin): call again, scribble over the first result, call a third time
+REPEAT: list = []
 LAYOUT_TWIN = False  # set per clause by run_one (Clause.layout_twin)
 LAYOUT: list = []    # filled by call(): function names whose result changed when array arguments were passed column-major
 
@@ -143,6 +145,16 @@ def _equalish(a, b, depth=0) -> bool:
     return True  # objects we cannot compare (expressions, generators, game objects) are not judged
 
 
+def _random_by_design(fn, a, k) -> bool:
+    """Functions whose documented behaviour is to draw random numbers (excluded from the repeat twin)."""
+    name = getattr(fn, "__name__", "")
+    if name.startswith("random_") or name in ("perturb_vectors",):
+        return True
+    if name == "pauli_channel" and a and isinstance(a[0], int):  # an integer first argument asks for a random probability vector
+        return True
+    return False
+
+
 def call(fn: Callable, *a, **k):
     """Call toqito; returns (value, None) or (None, exception).
 
@@ -161,6 +173,27 @@ def call(fn: Callable, *a, **k):
     for (key, snap), v in zip(before, list(a) + list(k.values())):
         if snap is not None and _snap(v) != snap:
             ALIASING.append((getattr(fn, "__name__", repr(fn)), key))
+    if REPEAT_TWIN and out[1] is None and not _random_by_design(fn, a, k):
+        import copy as _copy
+        import numpy as _np
+
+        try:
+            keep = _copy.deepcopy(out[0])
+            # the experiment runs on COPIES of the arguments, so a function that returns (a view of) its input cannot make us
+            # scribble over the clause's own objects
+            second = fn(*_copy.deepcopy(list(a)), **_copy.deepcopy(dict(k)))
+            if not _equalish(keep, second):
+                REPEAT.append(getattr(fn, "__name__", repr(fn)) + ": second call with the same arguments returned a different result")
+            else:
+                # scribble over what the second call returned: a function that hands out a shared / cached object shows it now
+                for arr in (second if isinstance(second, (list, tuple)) else [second]):
+                    if isinstance(arr, _np.ndarray) and arr.flags.writeable and arr.dtype != object and arr.size:
+                        arr[...] = 7
+                third = fn(*_copy.deepcopy(list(a)), **_copy.deepcopy(dict(k)))
+                if not _equalish(keep, third):
+                    REPEAT.append(getattr(fn, "__name__", repr(fn)) + ": modifying a returned array in place changed what a later call returns")
+        except Exception as e:  # noqa: BLE001
+            REPEAT.append(getattr(fn, "__name__", repr(fn)) + " raised " + type(e).__name__ + " on a repeated call")
     if LAYOUT_TWIN and out[1] is None:
         a2 = [_fortran(v) for v in a]
         k2 = {n: _fortran(v) for n, v in k.items()}
@@ -207,6 +240,7 @@ class Clause:
     probe: int = 4  # number of leading cases re-executed by the determinism probe
     chunk: int = 0  # cases per work item (0: automatic)
     layout_twin: bool = False  # repeat every toqito call with column-major array arguments and require the same result
+    repeat_twin: bool = False  # repeat every toqito call, scribble over the returned arrays, call again: results must not change
     alphabets: Callable[[str, int], dict] | None = None
     weight: float = 0.0  # rough seconds per case (scheduling hint: heavy clauses first)
 
@@ -238,13 +272,17 @@ def _run_chunk(pid: str, clause_name: str, items: list) -> list:
 
 
 def run_one(clause: Clause, case: dict) -> dict:
-    global LAYOUT_TWIN
+    global LAYOUT_TWIN, REPEAT_TWIN
     t0 = time.time()
     del ALIASING[:]
     del LAYOUT[:]
+    del REPEAT[:]
     LAYOUT_TWIN = bool(clause.layout_twin)
+    REPEAT_TWIN = bool(clause.repeat_twin)
     try:
         res = clause.check(case)
+        if REPEAT and isinstance(res, dict) and res.get("status") != VIOL:
+            res = viol(REPEAT[0], site=f"{REPEAT[0].split(':')[0].split()[0]}:repeat_call", observed=REPEAT[:4])
         if LAYOUT and isinstance(res, dict) and res.get("status") != VIOL:
             res = viol(f"{LAYOUT[0]}: result depends on the memory layout of an array argument (row-major vs column-major copy of the same values)",
                        site=f"{LAYOUT[0].split()[0]}:memory_layout", observed=LAYOUT[:4])
